@@ -15,10 +15,26 @@ func init() {
 }
 
 func seqCheck(id, tier string, quick, thorough time.Duration, plans []seq.Plan, rule string, assumptions []string) int {
+	return seqCheckConf(id, tier, quick, thorough, plans, nil, rule, assumptions)
+}
+
+// seqCheckConf additionally replays the conformance plans on the real Badger engine with real files,
+// goroutines and time (no scheduler): the same model must be met there.
+func seqCheckConf(id, tier string, quick, thorough time.Duration, plans, conf []seq.Plan, rule string, assumptions []string) int {
 	budget := hk.NewBudget(dur(tier, quick, thorough))
 	rp := hk.NewReporter(id)
 	sum := seq.RunPlans(rp, plans, budget, verbose())
-	ev := &hk.Evidence{PropertyID: id, Tier: tier, Level: "model_checking", Coverage: sum.Coverage(rule), Assumptions: assumptions}
+	cov := sum.Coverage(rule)
+	if len(conf) > 0 {
+		cb := hk.NewBudget(dur(tier, quick/2, thorough/3))
+		cs := seq.RunPlans(rp, conf, cb, verbose())
+		cov["conformance_real_engine_histories"] = cs.Histories
+		cov["conformance_real_engine_complete"] = cs.AllComplete
+		cov["conformance_real_engine_depths"] = cs.Depths
+		cov["traces_validated_against_impl"] = sum.Histories + cs.Histories
+		cov["conformance_note"] = "the same histories replayed on the real Badger engine, real files, real goroutines and real time (no scheduler, no shim engine); they must meet the same reference model"
+	}
+	ev := &hk.Evidence{PropertyID: id, Tier: tier, Level: "model_checking", Coverage: cov, Assumptions: assumptions}
 	return finish(rp, ev, budget)
 }
 
@@ -37,7 +53,11 @@ func c01(tier string) int {
 		{Family: "kv-len", From: 1, To: 3},
 		{Family: "kv", Params: "keys=3", From: 1, To: d},
 	}
-	return seqCheck("C01", tier, 90*time.Second, 10*time.Minute, plans,
+	conf := []seq.Plan{{Family: "real-kv", Params: "keys=2", From: 3, To: 3}, {Family: "real-kv-len", From: 2, To: 2}}
+	if tier == "thorough" {
+		conf = []seq.Plan{{Family: "real-kv", Params: "keys=3", From: 4, To: 4}, {Family: "real-kv-len", From: 3, To: 3}}
+	}
+	return seqCheckConf("C01", tier, 90*time.Second, 10*time.Minute, plans, conf,
 		"all autocommit histories up to the stated depth over Set/SetReader/Create/Delete on 3 keys (one multi-byte UTF-8) plus Set(\"\"); Get, GetReader, GetKeys and Get(never-written) compared with a map model after every step; all content lengths of {0,1,2047,2048,2049,4096,32767,32768,32769,65537} and Create splits on the last write of every history of depth<=3; states = distinct model states",
 		seqAssumptions)
 }
@@ -54,7 +74,11 @@ func c02(tier string) int {
 			{Family: "iso", Params: "keys=1,slots=3", From: 1, To: 6},
 		}
 	}
-	return seqCheck("C02", tier, 90*time.Second, 20*time.Minute, plans,
+	conf := []seq.Plan{{Family: "real-iso", Params: "keys=1,slots=2,gc=0", From: 3, To: 3}}
+	if tier == "thorough" {
+		conf = []seq.Plan{{Family: "real-iso", Params: "keys=1,slots=2,gc=0", From: 4, To: 4}, {Family: "real-iso", Params: "keys=2,slots=2,gc=0", From: 3, To: 3}}
+	}
+	return seqCheckConf("C02", tier, 90*time.Second, 20*time.Minute, plans, conf,
 		"all sequential interleavings up to the stated depth of autocommit Set/Delete, Begin(4 levels)/Set/Delete/Commit/Rollback in 2-3 transaction slots and GC at any position; after every step Get of every key and GetKeys through every open transaction and the autocommit handle compared with the isolation model",
 		seqAssumptions)
 }
@@ -63,6 +87,7 @@ func c03(tier string) int {
 	plans := []seq.Plan{
 		{Family: "iso", Params: "keys=2,slots=2,levels=RC.RR,gc=0,obs=auto,maxw=3", From: 1, To: 5},
 		{Family: "iso", Params: "keys=1,slots=2,levels=RU.SER,gc=0,obs=auto,maxw=2", From: 1, To: 5},
+		{Family: "iso", Params: "keys=1,slots=2,levels=RC.RR,gc=0,obs=auto,maxw=2", From: 6, To: 6},
 	}
 	if tier == "thorough" {
 		plans = []seq.Plan{
@@ -71,7 +96,11 @@ func c03(tier string) int {
 			{Family: "iso", Params: "keys=2,slots=2,levels=RU.SER,gc=0,obs=auto,maxw=2", From: 1, To: 6},
 		}
 	}
-	return seqCheck("C03", tier, 90*time.Second, 15*time.Minute, plans,
+	conf := []seq.Plan{{Family: "real-iso", Params: "keys=2,slots=2,levels=RC.RR,gc=0,obs=auto,maxw=3", From: 3, To: 3}}
+	if tier == "thorough" {
+		conf = []seq.Plan{{Family: "real-iso", Params: "keys=2,slots=2,levels=RC.RR,gc=0,obs=auto,maxw=3", From: 4, To: 4}}
+	}
+	return seqCheckConf("C03", tier, 90*time.Second, 15*time.Minute, plans, conf,
 		"all sequential interleavings up to the stated depth of transactions (levels as stated, up to 3 writes each, overlapping write sets) and autocommit writes; the error class of every Commit/Rollback and autocommit Get of all keys + GetKeys after every step compared with the model: success publishes exactly the last value per written key, failure/rollback changes nothing, ErrTxSerialization iff snapshot level and a written key was committed after begin",
 		seqAssumptions)
 }
